@@ -87,6 +87,12 @@ def rand_history(rng, adversarial=False, n=None, real=False):
             files["side%d.txt" % i] = 1
         day += rng.choice([0, 1, 3, 40])
         hist.append(c)
+    if real and len(hist) > 1 and rng.random() < 0.25:
+        # rebased / cherry-picked / amended commits keep their old author dates: the dates along the log are in any order
+        dates = [c["Date"] for c in hist]
+        rng.shuffle(dates)
+        for c, d in zip(hist, dates):
+            c["Date"] = d
     return hist
 
 
@@ -522,6 +528,11 @@ def gen_c15(rng, tier):
     for sh in shards:
         for _ in range(3 if tier == "quick" else 20):
             sh.append({"op": "summaryrepo", "cli": True, "history": rand_history(rng, adversarial=False, n=rng.choice([1, 3, 6, 8]), real=True)})
+        # a wide one: more files and more authors than the default --size of the tables (20): every one has its row
+        n = rng.choice([21, 24, 27])
+        sh.append({"op": "summaryrepo", "cli": True, "history": [
+            {"Author": "Dev %02d" % (i if rng.random() < 0.9 else 0), "Email": "d@e.f", "Date": "2021-%02d-%02d" % (1 + i // 28, 1 + i % 28), "Subject": "add %d" % i,
+             "Ops": [{"Op": "write", "Path": "mod%d/f%d.txt" % (i % 5, i), "Content": "x\n" * (1 + i % 3)}]} for i in range(n)]})
     return shards
 
 
